@@ -71,10 +71,11 @@ PointFails(e) ==
 
 (* --- the decision rule (C02) ------------------------------------------------------------------ *)
 ArgMaxFails(pts, t) ==
+  IF sn.lost = "unknown" THEN {} ELSE
   LET Rt == pts[t].R
       St == CharScale(pts[t - 1].z, pts[t].z, pts[t].d, rM, sZ) IN
   \* (the rounding allowance is evaluated only for the intervals whose characteristic exceeds the chosen one at all)
-  {"ArgMax" : i \in {k \in {j \in 2..Len(pts) : j # t /\ QLt(Rt, pts[j].R)} :
+  {"ArgMax" : i \in {k \in {j \in 2..Len(pts) : j # t /\ pts[j].x # sn.lost /\ QLt(Rt, pts[j].R)} :
        QLt(QAdd(Rt, QTol(QAdd(St, CharScale(pts[k - 1].z, pts[k].z, pts[k].d, rM, sZ)))), pts[k].R)}}
 
 (* the code's rounding error on x is about 2^-53 absolute plus 2^-52 N relative on the shift term *)
@@ -85,7 +86,7 @@ PointRuleFails(pts, t, x) ==
                   QMul(QHalf, QAdd(pts[t - 1].x, pts[t].x)), x)
 
 StopFails ==
-  IF spc = "solve" /\ StopDef THEN {"StopLate"} \cup (IF strials >= scfg.limit THEN {"Budget"} ELSE {}) ELSE {}
+  IF spc = "solve" /\ sn.lost # "unknown" /\ StopDef THEN {"StopLate"} \cup (IF strials >= scfg.limit THEN {"Budget"} ELSE {}) ELSE {}
 
 (* recompute characteristics: all of them if an estimate changed, otherwise only the two new intervals *)
 Refresh(pts, t, changed, rMn, Zn) ==
@@ -129,7 +130,14 @@ AccFails(sol) ==
   ELSE IF sol.acc \in {"inf", "-inf"} THEN {"Accuracy"}
   ELSE IF QClose(sol.acc, sminD, QMul(QPow2(-38), sminD)) THEN {} ELSE {"Accuracy"}
 
-Sn0 == [before |-> 0, enditers |-> 0, stops |-> 0, new |-> <<>>, stopsol |-> <<>>, last |-> <<>>]
+Sn0 == [before |-> 0, enditers |-> 0, stops |-> 0, new |-> <<>>, stopsol |-> <<>>, last |-> <<>>, lost |-> "none"]
+(* sn.lost - what the code does after a contained failure (a deliberate deviation, modelled rather than idealised): the    *)
+(* interval popped for the failed evaluation is NOT put back into the queue, so it cannot be chosen until the next full    *)
+(* recalculation (the next change of M or of the best value) refills the queue.  lost = coordinate of that interval's right end, "none",  *)
+(* or "unknown" (the failed point could not be located: arg-max and accuracy clauses are then waived for the rest of the run) *)
+LocateNear(pts, xa) ==
+  LET S == {i \in 2..Len(pts) : QLeq(pts[i - 1].x, xa) /\ QLt(xa, pts[i].x)}
+  IN IF S = {} THEN 0 ELSE CHOOSE i \in S : TRUE
 Probing == "probing" \in DOMAIN scfg /\ scfg.probing      \* attached painters evaluate the objective for drawing
 Hears(kind) == "cbs" \in DOMAIN scfg /\ \E i \in 1..Len(scfg.cbs) : scfg.cbs[i] = kind
 
@@ -195,7 +203,8 @@ TrialAt(e, t) ==
                                         !.recalcs = @ + (IF Mn # sM \/ Zn # sZ THEN 1 ELSE 0),
                                         !.ties = @ + (IF \E k \in 2..Len(spts) : k # t /\ spts[k].R = spts[t].R THEN 1 ELSE 0)]
        /\ strials' = strials + 1
-       /\ sn' = [sn EXCEPT !.new = Append(@, e.x)]
+       /\ \E Mn \in {MaxOf(NewSlopes(p1, t), sM)} : \E Zn \in {QMin(sZ, e.z)} :
+            sn' = [sn EXCEPT !.new = Append(@, e.x), !.lost = IF @ # "unknown" /\ (Mn # sM \/ Zn # sZ) THEN "none" ELSE @]
        /\ UNCHANGED <<scfg, spc, scall0, sfault, slocal>>
 
 EvTrial(e) == IF strials = 0 THEN EvFirstTrial(e) ELSE TrialAt(e, Locate(spts, e.x))
@@ -203,7 +212,11 @@ EvTrial(e) == IF strials = 0 THEN EvFirstTrial(e) ELSE TrialAt(e, Locate(spts, e
 EvFail(e) ==
   /\ sfault' = TRUE
   /\ Note(e, (IF InBoxV(e.ylog) THEN {} ELSE {"InBox"}) \cup StopFails)
-  /\ UNCHANGED <<scfg, spts, sM, sZ, sminD, strials, spc, scall0, slocal, tstats, sn>>
+  /\ \E t \in {IF strials > 0 /\ spc \in {"dgi", "solve"} /\ "xinv" \in DOMAIN e /\ e.xinv # "none" THEN LocateNear(spts, e.xinv) ELSE 0} :
+       IF strials = 0 \/ spc \notin {"dgi", "solve"} THEN UNCHANGED <<sn, sminD>>
+       ELSE /\ sn' = [sn EXCEPT !.lost = IF t = 0 THEN "unknown" ELSE spts[t].x]
+            /\ sminD' = IF t = 0 THEN sminD ELSE InfMin(sminD, spts[t].d)       \* the accuracy is lowered before the evaluation
+  /\ UNCHANGED <<scfg, spts, sM, sZ, strials, spc, scall0, slocal, tstats>>
 
 EvLocal(e) ==
   /\ slocal' = slocal + 1
@@ -262,10 +275,10 @@ EvRet(e) ==
       f == SnapAll(e.snap)
            \cup CountFails(e.sol)
            \cup BestFails(e.sol, IF e.name \in {"solve", "localref"} THEN e.bf ELSE "skip", refined)
-           \cup (IF sfault THEN {} ELSE AccFails(e.sol))
+           \cup (IF sfault \/ sn.lost = "unknown" THEN {} ELSE AccFails(e.sol))
            \cup (IF e.raised = "none" THEN {} ELSE {IF sfault THEN "FailContained" ELSE "SolveReturns"})
            \cup (IF e.name = "dgi" /\ ~sfault /\ strials - scall0 # e.k THEN {"DgiCount"} ELSE {})
-           \cup (IF solveok /\ ~StopMaybe THEN {"StopEarly"} ELSE {})
+           \cup (IF solveok /\ sn.lost # "unknown" /\ ~StopMaybe THEN {"StopEarly"} ELSE {})
            \cup (IF solveok /\ e.printed_exc THEN {"NoIntExc"} ELSE {})
            \cup (IF e.name = "solve" /\ e.raised = "none" /\ ~e.ret_is_results THEN {"SolveReturnsResults"} ELSE {})
            \cup NotifRetFails(e) \cup CertFails(e)
